@@ -1,6 +1,7 @@
 package shoot
 
 import (
+	"go/ast"
 	"go/types"
 	"path/filepath"
 	"strings"
@@ -13,6 +14,23 @@ func Contains[T comparable](slice []T, val T) bool {
 		}
 	}
 	return false
+}
+
+// InspectTopLevel walks the package-level declarations of f like ast.Inspect,
+// but never enters a function body: types declared inside functions are not
+// visible to generated code and must not be selected.
+func InspectTopLevel(f *ast.File, fn func(ast.Node) bool) {
+	for _, decl := range f.Decls {
+		if _, ok := decl.(*ast.FuncDecl); ok {
+			continue
+		}
+		ast.Inspect(decl, func(n ast.Node) bool {
+			if _, ok := n.(*ast.FuncLit); ok {
+				return false
+			}
+			return fn(n)
+		})
+	}
 }
 
 func FixPath(path string) string {
